@@ -152,18 +152,28 @@ func NewScenario(tr *Tracer, prog Program) *Scenario {
 	if sc.prog.InCh > 0 {
 		s.SetInChannelSize(sc.prog.InCh)
 	}
+	// a handler that had started answers its request - also while the service is being shut down - without a panic
+	replying := func(cb string, reply func()) {
+		defer func() {
+			if v := recover(); v != nil {
+				sc.violate("C03", "reply-panic", fmt.Sprintf("the reply of callback %s panicked: %v", cb, v), map[string]string{"panic": fmt.Sprint(v)})
+				panic(v)
+			}
+		}()
+		reply()
+	}
 	handler := func(r res.GetRequest) {
 		// the reply inbox carries the callback id
 		sc.body(cbFromQuery(r.Query()), r.Group())
-		r.NotFound()
+		replying(cbFromQuery(r.Query()), r.NotFound)
 	}
 	call := func(r res.CallRequest) {
 		sc.body(cbFromQuery(r.Query()), r.Group())
-		r.OK(nil)
+		replying(cbFromQuery(r.Query()), func() { r.OK(nil) })
 	}
 	acc := res.Access(func(r res.AccessRequest) {
 		sc.body(cbFromQuery(r.Query()), r.Group())
-		r.AccessGranted()
+		replying(cbFromQuery(r.Query()), r.AccessGranted)
 	})
 	s.Handle("r.$id", res.GetResource(handler), res.Call("m", call), acc)
 	s.Handle("q.$id", res.GetResource(handler), res.Call("m", call), acc, res.Group("grp.${id}"))
